@@ -367,6 +367,23 @@ def l2_trace(res, resp_timeout_ms=0):
     tagof = {}
     connack = {}
     ackcut = set()
+    # an acknowledgement the broker sent but the client never read because ANOTHER writer's packet (option
+    # DirectlyPublishQoS0: the caller's goroutine writes) ended the connection first: for the client that request was
+    # never answered -- the model's outcome "ackPending" (trace validation only) followed by the cut of the other write
+    unread = set()
+    raw = res["evs"]
+    for i, e in enumerate(raw):
+        if e["e"] == "Idle":
+            break
+        if e["e"] == "Write" and e.get("req", True) and e.get("o") == "ok" and e.get("resp") and e["p"] != "CONNECT":
+            for f in raw[i + 1:]:
+                if f["e"] == "Read" and f["g"] == e["g"] and f["p"] == e["resp"] and f["id"] == e["id"]:
+                    break
+                if f["e"] == "Close" and f["g"] == e["g"]:
+                    unread.add(e["seq"])
+                    break
+                if f["e"] == "Idle":
+                    break
     for e in res["evs"]:
         if e["e"] == "Idle":
             break
@@ -381,6 +398,8 @@ def l2_trace(res, resp_timeout_ms=0):
             e = dict(e)
             if e.get("o") == "lateAck":
                 e["o"] = "dropAck" if 0 < resp_timeout_ms < 25 else "ok"
+            if e.get("seq") in unread:
+                e["o"] = "ackPending"
             if e["p"] == "CONNECT":
                 connack[e["g"]] = e.get("connack")
             if e["p"] == "PUBLISH":
